@@ -170,6 +170,8 @@ type checker struct {
 	nonfatal  atomic.Int64
 	doubles   atomic.Int64
 	laxChecks atomic.Int64
+	bSamples  atomic.Int64
+	cSamples  atomic.Int64
 	concats   atomic.Int64
 	wd        watchdog
 }
@@ -244,7 +246,7 @@ func (c *checker) call(e int, in []byte) (res result) {
 
 var (
 	quoteRe = regexp.MustCompile(`"[^"]*"|'[^']*'`)
-	numRe   = regexp.MustCompile(`[0-9]+`)
+	numRe   = regexp.MustCompile(`\b[0-9]+\b`)
 	hexRe   = regexp.MustCompile(`0x[0-9a-f]+|[0-9a-f]{8,}`)
 )
 
@@ -1082,11 +1084,14 @@ func TestCheck(t *testing.T) {
 			defer func() { pprof.StopCPUProfile(); f.Close() }()
 		}
 	}
-	r.Rule("(a) templates = product of {multi-valued subject with every string type, SAN dns/email/ip/uri (thorough: every subset), key usage, EKU known+unknown, basic constraints absent/non-CA/CA/pathlen 0/pathlen 3, name constraints permitted+excluded of each type (thorough: each side alone too), policies, AIA ocsp+issuer, CRL DPs, SKI, AKI, unknown critical ext, unknown non-critical ext} x key {P-256, RSA-2048, Ed25519} x encoder {crypto/x509.CreateCertificate, ref/der+ref/pki}; validity {<2050, straddling, >=2050} and serial size {1, 8 with top bit, 20 octets} rotated over the index so that each meets every value of every other factor, plus their full 3x3 product on the all-off and all-on templates; 17 syntax-rich der-only certificates; CRLs (two std encoders), PKIX/PKCS1/PKCS8/SEC1 keys, CSRs. (b) seeds {all-off, all-on, each feature alone} x key x encoder, their bare TBSCertificates, the CRLs/keys/CSRs and the repository's testdata certificates x every TLV node (descending into OCTET/BIT STRING wrappers) x every mutation of the catalogue, each through all 13 parser entry points (thorough: a second mutation of the lax-tolerated kinds at every node of every mutant of the all-on/all-off seeds, and all pairs on the smallest seed). (c) concatenations of 2 and 3 of {clean, non-fatal, fatal} elements. distinct_nontrivial = distinct conformance inputs + distinct mutated inputs for which at least one entry point returned an object")
+	r.Rule("(a) conformance: templates = full product of {multi-valued subject with every string type (UTF8/Printable/T61/BMP/IA5/Numeric) | plain, SAN dns+email+ip+uri | none (thorough: every subset of the four), key usage, EKU known+unknown, basic constraints absent / non-CA / CA / pathlen 0 / pathlen 3, name constraints permitted+excluded of each type | none (thorough: each side alone too), policies (with qualifiers), AIA ocsp+issuer, CRL DPs, SKI, AKI, unknown critical ext, unknown non-critical ext} x encoder {crypto/x509.CreateCertificate, ref/der+ref/pki} (thorough: x key {P-256, RSA-2048, Ed25519}); validity {<2050, straddling 2050, >=2050}, serial size {1, 8 with top bit, 20 octets} and (quick) the key type rotate over the index so that each meets every value of every other factor (checked, see a_rotated_factors...), plus the full validity x serial x key x encoder product on the all-off and all-on templates; 20 syntax-rich der-only certificates (all GeneralName kinds, AKI with issuer+serial, CRL DP reasons/cRLIssuer, user notices, unique ids, RPKI address blocks and AS ids, SIA, embedded SCT list - fork-only fields against the template); CRLs from both std encoders and 2 der-built CRLs with every extension revoked.go cracks out; PKIX/PKCS1/PKCS8/SEC1 keys (P-224/256/384/521, RSA, Ed25519); CSRs. Each certificate also as bare TBSCertificate through ParseTBSCertificate and through ParseCertificates. (b) totality/coherence: seeds {all-off, all-on, each feature alone} x key x encoder (quick: the single-feature std-encoder seeds with P-256 only), bare TBSCertificates, rich certificates, CRLs/keys/CSRs, the repository's testdata certificates (quick: 8, thorough: all) x every TLV node (descending into OCTET/BIT STRING wrappers) x every mutation of the catalogue (b_mutation_kinds), each mutant through all 13 parser entry points, CRL mutants also PEM-armoured; thorough adds a second mutation: every lax-tolerated kind at every node of every single mutant of the all-off and all-on seeds, and all pairs of mutations on the smallest certificate. (c) concatenations: every lax-kind/delete/bad-BOOLEAN mutant of two all-on certificates (thorough: four, and of every testdata certificate) and every testdata certificate, paired in both orders with a 14-element set holding one element per (mutation kind, solo outcome class); all triples over that set at every position; and, in (b), every mutated input that is a run of k>=1 top-level TLVs. distinct_nontrivial = distinct conformance inputs + distinct mutated/concatenated inputs for which at least one entry point returned an object")
 	r.Assume("a parser call that does not return within 60 s counts as non-terminating (typical call: 50 µs)",
-		"crypto/x509 of go1.23 is the reference for field values; fields only one object model has are skipped and listed under coverage.fields_one_side_lacks",
-		"ParseCertificates on k concatenated parts is expected to be fatal iff ParseCertificate of some part alone is fatal (the API has one error for the whole slice)",
-		"'usable object' is probed through the object's own methods (CheckSignature on its own TBS, IsPrecertificate, Name.String): only a panic counts")
+		"crypto/x509 of the installed toolchain (go1.23) is the reference for field values; fields only one object model has are skipped and listed under coverage.fields_one_side_lacks; for the three extensions only the fork interprets, UnhandledCriticalExtensions is not compared",
+		"ParseCertificates on k concatenated parts is expected to be fatal iff ParseCertificate of some part alone is fatal (the API has one error for the whole slice), else to return the k objects ParseCertificate returns, non-fatal iff some part is",
+		"'usable object' is probed through the package's own methods on the returned object (CheckSignature over its own TBS / with the returned key, IsPrecertificate, Name.String, ExpiredAt): only a panic counts",
+		"raw-field offsets are demanded exactly where the TLV framing down to the field is unambiguous (an EXPLICIT [0] version wrapper holding exactly one TLV); elsewhere the raw fields must still be runs of input bytes in field order",
+		"lax-visibility: non-minimal INTEGER, empty OID and PrintableString with ISO-8859-1 bytes are the malformations asn1 documents as refused in strict and tolerated in lax mode; at a node the certificate parser decodes (outside extension values, signature and algorithm parameters; plus EKU KeyPurposeIds) the result may be non-fatal or fatal but not err == nil",
+		"a DistributionPoint with nameRelativeToCRLIssuer is well-formed but rejected by crypto/x509 of go1.23, so it is not in the template set")
 
 	cpu0 := cpuSeconds()
 	phase := func(name string) {
@@ -1246,6 +1251,10 @@ func TestCheck(t *testing.T) {
 				c.mutants.Add(1)
 				d := caseDesc{Part: "b:one-mutation", Seed: s.b.Name, Mutation: m.kind + " at node " + nodePath(n)}
 				cc, tc := c.checkInput(m.data, d, s.b.Kind == "crl")
+				if cc == clsNonFatal && m.kind == "retag-printable-latin1" && c.bSamples.Add(1) <= 2 {
+					r.Sample(map[string]any{"part": "b", "seed": s.b.Name, "mutation": d.Mutation, "input_bytes": len(m.data),
+						"ParseCertificate": clsName[cc], "ParseTBSCertificate": clsName[tc]})
+				}
 				// (6) a lax-only malformation at an interpreted node is never reported as "no error"
 				if (s.b.Kind == "cert" || s.b.Kind == "tbs") && laxOnly(m.kind, n) && interpreted(s.b.DER, n, s.b.Kind == "tbs") {
 					cls, name := cc, "ParseCertificate"
@@ -1461,6 +1470,9 @@ func (c *checker) concatPhase(th bool) {
 		}
 		h := sha256.Sum256(in)
 		c.r.Nontrivial("c|" + string(h[:]))
+		if len(parts) == 3 && res.cls != clsOK && c.cSamples.Add(1) <= 1 {
+			r.Sample(map[string]any{"part": "c", "parts": names, "ParseCertificates": clsName[res.cls], "certificates_returned": len(tops)})
+		}
 	}
 	// pairs: every element with every small-set element, both orders
 	n, m := len(all), len(small)
